@@ -226,6 +226,28 @@ func checkC04(w *Worker) {
 		check(x, f, text, "after-an-earlier-parse")
 	})
 	earlierParse = false
+	// A5: two different numbers in one file that agree in a long prefix, in a long suffix, or in everything but one digit
+	// (whatever remembers a number by part of its text remembers the wrong one)
+	numPairs := [][2]string{{"0.333333", "0.333334"}, {"-1234.56", "-1234.57"}, {"1.250000e-5", "1.250000e-6"}, {"123456789", "123456780"}, {"0.10000001", "0.10000002"},
+		{"10000000.5", "10000001.5"}, {"1234567.25", "2234567.25"}, {"0.5000000000001", "0.5000000000002"}, {"99999999", "99999998"}, {"1e10", "1e11"}, {"-0.0000001", "-0.0000002"}, {"12345678", "12345678.5"}}
+	w.Explore("numbers-that-share-most-of-their-text", ExploreOpts{ShardDepth: 3, Budgets: map[string]int{"layout": 0}}, func(x *Exec) {
+		pr := numPairs[x.Choose(len(numPairs), "input:pair")]
+		shape := x.Choose(4, "input:placement") // same record, two records, two records reversed, first one twice then the other
+		var f absFile
+		switch shape {
+		case 0:
+			f = absFile{{Header: "rec1", Items: []absItem{{Name: "a", NumText: pr[0]}, {Name: "b", NumText: pr[1]}, {Name: "c", NumText: pr[0]}}}}
+		case 1:
+			f = absFile{{Header: "rec1", Items: []absItem{{Name: "a", NumText: pr[0]}}}, {Header: "rec2", Items: []absItem{{Name: "a", NumText: pr[1]}}}}
+		case 2:
+			f = absFile{{Header: "rec1", Items: []absItem{{Name: "a", NumText: pr[1]}}}, {Header: "rec2", Items: []absItem{{Name: "a", NumText: pr[0]}}}}
+		default:
+			f = absFile{{Header: "rec1", Items: []absItem{{Name: "a", NumText: pr[0]}, {Name: "b", NumText: pr[0]}}}, {Header: "rec2", Items: []absItem{{Name: "c", NumText: pr[1]}, {Name: "d", NumText: "2"}}}}
+		}
+		text, _ := renderFile(x, f, renderOpts{})
+		x.Case(fmt.Sprint(pr, shape), true)
+		check(x, f, text, "similar-numbers")
+	})
 	// B: every file that departs from the default layout in at most dev places
 	layoutBody := func(r, e int) func(x *Exec) {
 		return func(x *Exec) {
